@@ -137,6 +137,9 @@ impl AEADBodyCodec {
                         return Ok(None);
                     }
                     let length = self.decode_size(&mut src.split_to(size_bytes), session.chunk_nonce())?;
+                    if length < padding + self.auth.cipher.tag_size() {
+                        return Err(aead::Error);
+                    }
                     self.state = DecodeState::Body(padding, length)
                 }
                 DecodeState::Body(padding, length) => {
@@ -168,6 +171,9 @@ impl AEADBodyCodec {
                         break;
                     }
                     let length = self.decode_size(&mut src.split_to(size_bytes), session.chunk_nonce())?;
+                    if length < padding + self.auth.cipher.tag_size() {
+                        return Err(aead::Error);
+                    }
                     trace!("Decode payload; payload length={}", length);
                     self.state = DecodeState::Body(padding, length)
                 }
